@@ -68,6 +68,30 @@ type RealmCfg struct {
 	Field       string `json:"field"` // token | access | both | none
 	GiveRefresh bool   `json:"give_refresh,omitempty"`
 	SameToken   bool   `json:"same_token,omitempty"` // always hand out the same token string
+	// Redirect: the realm's server does not answer token requests itself but sends the client
+	// elsewhere with a 3xx (see Redirect)
+	Redirect *Redirect `json:"redirect,omitempty"`
+}
+
+// Redirect describes a token server that answers with 3xx redirects before some server answers
+// for real (the one at the end of the chain behaves as the realm is configured to).
+type Redirect struct {
+	Status int `json:"status"` // 301 | 302 | 303 | 307 | 308
+	// To: where the Location header points, per redirect of one chain:
+	//   path      same host, another path
+	//   relative  a relative reference (same host)
+	//   port      same host name, another port
+	//   sub       a sub-domain of the realm's host
+	//   other     a different host
+	//   lookalike a host whose name merely ends in the realm's host name (no dot before it)
+	//   back      the realm's own host again (of interest after a hop elsewhere)
+	//   bad       a Location that does not parse
+	//   none      no Location header at all
+	To []string `json:"to"`
+	// Hops: redirects before the answer (the To list is cycled); above 9 the client gives up first
+	Hops int `json:"hops"`
+	// On: which token requests are redirected: "" (all), "get", "post"
+	On string `json:"on,omitempty"`
 }
 
 type Fault struct {
@@ -88,10 +112,61 @@ type Req struct {
 	// sends) when the caller overrides it: another host's name, or "-" for the empty string.
 	// Empty: left as http.NewRequest sets it (= URL.Host). The request is sent to URL.Host either way.
 	HostHdr string `json:"host_hdr,omitempty"`
+	// Outer: annotations (ContextWithRequestInfo / ContextWithScope) already on the context the
+	// caller derives this request's context from, outermost first. The request's own
+	// annotations (Required, Want) are applied on top, each when its scope is not the zero
+	// scope or when the Explicit flag says so (an annotation with the empty scope: "this
+	// request requires nothing", which has to override whatever the parent context says).
+	Outer        []Layer `json:"outer,omitempty"`
+	ReqExplicit  bool    `json:"req_explicit,omitempty"`
+	WantExplicit bool    `json:"want_explicit,omitempty"`
+	// Cancel: the request's context is already dead when RoundTrip is called: "pre" (cancelled),
+	// "deadline" (its deadline has passed). A live context can be cancelled mid-call by a
+	// "cancel" step. The fake network, like a real one, fails every request whose context is dead.
+	Cancel string `json:"cancel,omitempty"`
+	// Reuse: the caller does not build this request from scratch. "req": it sends the very same
+	// *http.Request as call Of once more (every field of this Req but Need/Chal/Body repeats that
+	// call's); "hdr": it builds a new request around the http.Header map of call Of's request
+	// (Auth repeats that call's). Only when call Of has returned; else the request is built afresh.
+	Reuse string `json:"reuse,omitempty"`
+	Of    int    `json:"of,omitempty"`
+}
+
+// Layer is one context annotation.
+type Layer struct {
+	Kind  string    `json:"kind"` // info (ContextWithRequestInfo) | scope (ContextWithScope)
+	Scope ScopeSpec `json:"scope"`
+}
+
+// EffRequired is the required scope the request's context carries: that of the innermost
+// ContextWithRequestInfo annotation.
+func (r *Req) EffRequired() ScopeSpec {
+	if r.Required.Kind != "zero" || r.ReqExplicit {
+		return r.Required
+	}
+	for i := len(r.Outer) - 1; i >= 0; i-- {
+		if r.Outer[i].Kind == "info" {
+			return r.Outer[i].Scope
+		}
+	}
+	return ScopeSpec{Kind: "zero"}
+}
+
+// EffWant is the desired scope the request's context carries (innermost ContextWithScope).
+func (r *Req) EffWant() ScopeSpec {
+	if r.Want.Kind != "zero" || r.WantExplicit {
+		return r.Want
+	}
+	for i := len(r.Outer) - 1; i >= 0; i-- {
+		if r.Outer[i].Kind == "scope" {
+			return r.Outer[i].Scope
+		}
+	}
+	return ScopeSpec{Kind: "zero"}
 }
 
 type Step struct {
-	Op  string `json:"op"` // start | resume | sleep | release | cfgrelease
+	Op  string `json:"op"` // start | resume | sleep | release | cfgrelease | cancel (call ID's context)
 	ID  int    `json:"id,omitempty"`
 	Req *Req   `json:"req,omitempty"`
 	Ms  int    `json:"ms,omitempty"`
@@ -139,6 +214,23 @@ type Msg struct {
 	Form  [][2]string `json:"form,omitempty"`
 	Base  string      `json:"base,omitempty"`
 	Query []KV        `json:"query,omitempty"`
+	// token requests: URL.Hostname() of the request (what net/http compares when it decides
+	// whether a redirected request keeps its Authorization header)
+	HostName string `json:"hostname,omitempty"`
+	// and its URL.Host (what doTokenRequest's CheckRedirect hook compares before a POST is sent again)
+	HostPort string `json:"hostport,omitempty"`
+}
+
+// Loc is the Location header of a token server's answer, resolved against the request's URL the
+// way http.Client does (req.URL.Parse): the oracle for net/url on the redirect hop.
+type Loc struct {
+	Raw      string `json:"raw"`
+	Bad      bool   `json:"bad,omitempty"` // does not parse
+	URL      string `json:"url,omitempty"` // the resolved URL
+	Base     string `json:"base,omitempty"`
+	Query    []KV   `json:"query,omitempty"`
+	Host     string `json:"host,omitempty"`     // its Hostname()
+	HostPort string `json:"hostport,omitempty"` // its Host
 }
 
 type Resp struct {
@@ -150,18 +242,21 @@ type Resp struct {
 	Access    string   `json:"access,omitempty"`
 	Refresh   string   `json:"refresh,omitempty"`
 	ExpiresIn int      `json:"expires_in,omitempty"`
+	Loc       *Loc     `json:"loc,omitempty"` // token servers: the Location header sent along
 }
 
 type Result struct {
-	Err    bool `json:"err,omitempty"`
-	HTTP   int  `json:"http,omitempty"` // errors.As found an HTTPError with this status (0 = none)
-	Status int  `json:"status,omitempty"`
-	Denied bool `json:"denied,omitempty"`
+	Err    bool   `json:"err,omitempty"`
+	HTTP   int    `json:"http,omitempty"` // errors.As found an HTTPError with this status (0 = none)
+	Status int    `json:"status,omitempty"`
+	Denied bool   `json:"denied,omitempty"`
 	Panic  string `json:"panic,omitempty"`
 }
 
 type Ev struct {
-	Kind string  `json:"kind"` // start | resume | send | selfclose | respclose | getbody | return
+	// start | resume | send | hop | selfclose | respclose | getbody | return
+	// (hop: a token request that follows the redirect the call's previous token request was answered with)
+	Kind string  `json:"kind"`
 	ID   int     `json:"id"`
 	Req  *Req    `json:"req,omitempty"`
 	Msg  *Msg    `json:"msg,omitempty"`
@@ -179,7 +274,7 @@ type Observed struct {
 	Untouched bool     `json:"untouched"`
 	Hung      bool     `json:"hung,omitempty"`
 	Ambiguous bool     `json:"ambiguous,omitempty"`
-	Realms    []string `json:"realms,omitempty"` // every realm named by a challenge sent
+	Realms    []string `json:"realms,omitempty"`     // every realm named by a challenge sent
 	CfgWaited int      `json:"cfg_waited,omitempty"` // config lookups that waited at a closed gate
 }
 
@@ -209,7 +304,19 @@ type thr struct {
 	pending *Ev   // its marker, logged at its first observable action
 	launchT int64 // us
 	arrT    int64 // its first observable action reached the harness (us)
+	// the caller's side
+	req    *http.Request
+	rq     *Req
+	cell   *callCell
+	cancel context.CancelFunc
+	// the token server's side: the call's last token request was answered with a redirect
+	inChain bool
+	redirN  int // redirects handed out in the current chain
 }
+
+// callCell is what the request context carries (under callKey): the id of the call the request
+// belongs to at the moment; a request that is sent a second time belongs to a new call.
+type callCell struct{ id int }
 
 type world struct {
 	in      *CaseIn
@@ -231,10 +338,11 @@ type world struct {
 	cfgCh   chan struct{}
 	cfgN    int // lookups that had to wait
 	quiet   bool
-	inFake  bool
+	inFake  map[int]bool
 	touched bool
 	hung    bool
 	realms  map[string]bool
+	alias   map[string]*RealmCfg // redirect targets: base URL -> the realm whose server redirected there
 }
 
 func (w *world) log(e Ev) {
@@ -326,7 +434,7 @@ func (b *reqBody) Read(p []byte) (int, error) { return b.r.Read(p) }
 // seen as the attempt).
 func (b *reqBody) Close() error {
 	b.w.mu.Lock()
-	inFake := b.w.inFake
+	inFake := b.w.inFake[b.id] // the fake network is consuming this call's body: the close is the network's
 	b.w.mu.Unlock()
 	if !inFake {
 		b.w.log(Ev{Kind: "selfclose", ID: b.id})
@@ -487,12 +595,7 @@ func (w *world) tokRespond(m *Msg) Resp {
 	if m.Kind == "post" {
 		base, _, _ = SplitURL(m.Realm)
 	}
-	var rc *RealmCfg
-	for i := range w.in.Realms {
-		if b, _, ok := SplitURL(w.in.Realms[i].URL); ok && b == base {
-			rc = &w.in.Realms[i]
-		}
-	}
+	rc := w.realmAt(base)
 	if rc == nil {
 		return Resp{Status: 404}
 	}
@@ -569,6 +672,103 @@ func (w *world) tokRespond(m *Msg) Resp {
 	return r
 }
 
+// realmAt: the realm configuration that governs the token server at base URL base (the realm
+// itself, or a place its server has redirected to).
+func (w *world) realmAt(base string) *RealmCfg {
+	var rc *RealmCfg
+	for i := range w.in.Realms {
+		if b, _, ok := SplitURL(w.in.Realms[i].URL); ok && b == base {
+			rc = &w.in.Realms[i]
+		}
+	}
+	if rc == nil {
+		rc = w.alias[base]
+	}
+	return rc
+}
+
+// redirectTarget builds the Location header for the k-th redirect of a chain.
+func redirectTarget(rd *Redirect, k int, realm *url.URL, req *http.Request) (loc string, has bool) {
+	if len(rd.To) == 0 {
+		return "", false
+	}
+	hostname := realm.Hostname()
+	withQuery := func(u string) string {
+		if req.URL.RawQuery != "" {
+			return u + "?" + req.URL.RawQuery
+		}
+		return u
+	}
+	n := strconv.Itoa(k)
+	switch rd.To[k%len(rd.To)] {
+	case "path":
+		return withQuery(realm.Scheme + "://" + realm.Host + "/moved" + n + realm.Path), true
+	case "relative":
+		return withQuery("/rel" + n + realm.Path), true
+	case "port":
+		return withQuery(realm.Scheme + "://" + hostname + ":84" + strconv.Itoa(43+k%50) + realm.Path), true
+	case "sub":
+		return withQuery(realm.Scheme + "://login" + n + "." + realm.Host + realm.Path), true
+	case "other":
+		return withQuery(realm.Scheme + "://tokens" + n + ".elsewhere.example/issue"), true
+	case "lookalike":
+		return withQuery(realm.Scheme + "://not" + realm.Host + realm.Path), true
+	case "back":
+		return withQuery(realm.Scheme + "://" + realm.Host + "/back" + n + realm.Path), true
+	case "bad":
+		return "http://[::1", true
+	}
+	return "", false // none
+}
+
+// tokAnswer: what the token server at the request's URL says: a redirect when the realm is set
+// up that way and the chain has not reached its end, else the answer proper.
+func (w *world) tokAnswer(m *Msg, req *http.Request, t *thr) Resp {
+	endChain := func() {
+		if t != nil {
+			t.inChain, t.redirN = false, 0
+		}
+	}
+	if _, ok := w.fault(); ok || t == nil {
+		endChain()
+		return w.tokRespond(m)
+	}
+	base := m.Base
+	if m.Kind == "post" {
+		base, _, _ = SplitURL(m.Realm)
+	}
+	rc := w.realmAt(base)
+	if rc == nil || rc.Redirect == nil || t.redirN >= rc.Redirect.Hops ||
+		(rc.Redirect.On != "" && rc.Redirect.On != m.Kind) {
+		endChain()
+		return w.tokRespond(m)
+	}
+	realm, err := url.Parse(rc.URL)
+	if err != nil {
+		endChain()
+		return w.tokRespond(m)
+	}
+	r := Resp{Status: rc.Redirect.Status}
+	raw, has := redirectTarget(rc.Redirect, t.redirN, realm, req)
+	if !has {
+		endChain() // a 3xx without Location is handed to the caller as it is
+		return r
+	}
+	r.Loc = &Loc{Raw: raw}
+	u, err := req.URL.Parse(raw)
+	if err != nil {
+		r.Loc.Bad = true
+		endChain()
+		return r
+	}
+	r.Loc.URL, r.Loc.Host, r.Loc.HostPort = u.String(), u.Hostname(), u.Host
+	r.Loc.Base, r.Loc.Query, _ = SplitURL(u.String())
+	w.alias[r.Loc.Base] = rc
+	t.inChain = true
+	t.redirN++
+	return r
+}
+
 func (w *world) httpResponse(req *http.Request, id int, r Resp) (*http.Response, error) {
 	if r.Fail {
 		return nil, errors.New("fake: transport failure")
@@ -576,6 +776,9 @@ func (w *world) httpResponse(req *http.Request, id int, r Resp) (*http.Response,
 	hdr := http.Header{}
 	for _, v := range r.WWW {
 		hdr.Add("Www-Authenticate", v)
+	}
+	if r.Loc != nil {
+		hdr.Set("Location", r.Loc.Raw)
 	}
 	var rd io.Reader = strings.NewReader("")
 	switch r.Body {
@@ -619,21 +822,32 @@ func (w *world) RoundTrip(req *http.Request) (*http.Response, error) {
 		id, _ := strconv.Atoi(idStr)
 		w.admit(id)
 		if req.Body != nil {
+			// (per call, not per world: other calls may be closing bodies of their own meanwhile)
 			w.mu.Lock()
-			w.inFake = true
+			w.inFake[id] = true
 			w.mu.Unlock()
 			io.Copy(io.Discard, req.Body)
 			req.Body.Close()
 			w.mu.Lock()
-			w.inFake = false
+			delete(w.inFake, id)
 			w.mu.Unlock()
 		}
 		m := &Msg{Kind: "reg", Host: req.URL.Host, Auth: decodeAuthz(req.Header)}
 		w.mu.Lock()
-		r := w.regRespond(req.URL.Host, m.Auth, req.Header.Get("X-Verif-Need"), req.Header.Get("X-Verif-Chal"))
+		var r Resp
+		if req.Context().Err() != nil {
+			// the caller has given up (context cancelled / past its deadline): a transport fails
+			// such a request (having closed its body)
+			r = Resp{Fail: true}
+		} else {
+			r = w.regRespond(req.URL.Host, m.Auth, req.Header.Get("X-Verif-Need"), req.Header.Get("X-Verif-Chal"))
+		}
 		w.noteRealms(r.WWW)
 		w.msgN++
 		t := w.threads[id]
+		if t != nil {
+			t.inChain, t.redirN = false, 0
+		}
 		w.mu.Unlock()
 		w.log(Ev{Kind: "send", ID: id, Msg: m, Resp: &r})
 		if t != nil {
@@ -649,14 +863,20 @@ func (w *world) RoundTrip(req *http.Request) (*http.Response, error) {
 		}
 		return w.httpResponse(req, id, r)
 	}
-	id, _ := req.Context().Value(callKey{}).(int)
+	id := 0
+	if cell, ok := req.Context().Value(callKey{}).(*callCell); ok {
+		id = cell.id
+	}
 	w.admit(id)
-	m := &Msg{Auth: decodeAuthz(req.Header)}
+	m := &Msg{Auth: decodeAuthz(req.Header), HostName: req.URL.Hostname(), HostPort: req.URL.Host}
 	if req.Method == "POST" {
 		m.Kind = "post"
 		m.Realm = req.URL.String()
-		data, _ := io.ReadAll(req.Body)
-		req.Body.Close()
+		var data []byte
+		if req.Body != nil {
+			data, _ = io.ReadAll(req.Body)
+			req.Body.Close()
+		}
 		vals, _ := url.ParseQuery(string(data))
 		for _, kv := range sortedValues(vals) {
 			for _, v := range kv.V {
@@ -681,10 +901,23 @@ func (w *world) RoundTrip(req *http.Request) (*http.Response, error) {
 		<-t.tokGate
 		w.mu.Lock()
 	}
-	r := w.tokRespond(m)
+	t := w.threads[id]
+	kind := "send"
+	if t != nil && t.inChain {
+		kind = "hop" // the client follows the redirect its previous token request was answered with
+	}
+	var r Resp
+	if req.Context().Err() != nil {
+		r = Resp{Fail: true} // the caller has given up: see above
+		if t != nil {
+			t.inChain, t.redirN = false, 0
+		}
+	} else {
+		r = w.tokAnswer(m, req, t)
+	}
 	w.msgN++
 	w.mu.Unlock()
-	w.log(Ev{Kind: "send", ID: id, Msg: m, Resp: &r})
+	w.log(Ev{Kind: kind, ID: id, Msg: m, Resp: &r})
 	return w.httpResponse(req, id, r)
 }
 
@@ -694,6 +927,7 @@ func (f configFunc) EntryForRegistry(host string) (ociauth.ConfigEntry, error) {
 
 func bodyFor(w *world, id int, kind string, req *http.Request) {
 	mk := func(orig bool) *reqBody { return &reqBody{w: w, id: id, orig: orig, r: strings.NewReader("payload")} }
+	req.Body, req.GetBody = nil, nil
 	switch kind {
 	case "plain":
 		req.Body = mk(true)
@@ -712,28 +946,88 @@ func bodyFor(w *world, id int, kind string, req *http.Request) {
 	}
 }
 
-func (w *world) call(tr http.RoundTripper, t *thr, rq *Req) {
-	ctx := context.WithValue(context.Background(), callKey{}, t.id)
-	if rq.Required.Kind != "zero" {
-		ctx = ociauth.ContextWithRequestInfo(ctx, ociauth.RequestInfo{RequiredScope: rq.Required.Scope()})
+// sameCaller: rq describes the same request as old (everything the caller fixes when it builds
+// the request and its context).
+func sameCaller(rq, old *Req) bool {
+	return rq.Host == old.Host && rq.Auth == old.Auth && rq.HostHdr == old.HostHdr && rq.Cancel == old.Cancel &&
+		rq.ReqExplicit == old.ReqExplicit && rq.WantExplicit == old.WantExplicit &&
+		reflect.DeepEqual(rq.Required, old.Required) && reflect.DeepEqual(rq.Want, old.Want) &&
+		reflect.DeepEqual(rq.Outer, old.Outer)
+}
+
+// buildRequest is the caller: it builds the call's request and context, or takes up a request
+// (or a header map) it has used before.
+func (w *world) buildRequest(t *thr, rq *Req) (*http.Request, context.Context) {
+	var old *thr
+	if rq.Reuse != "" {
+		w.mu.Lock()
+		if o := w.threads[rq.Of]; o != nil && o != t && o.done && o.req != nil && o.rq != nil {
+			switch {
+			case rq.Reuse == "req" && sameCaller(rq, o.rq):
+				old = o
+			case rq.Reuse == "hdr" && rq.Auth == o.rq.Auth:
+				old = o
+			}
+		}
+		w.mu.Unlock()
 	}
-	if rq.Want.Kind != "zero" {
-		ctx = ociauth.ContextWithScope(ctx, rq.Want.Scope())
+	var req *http.Request
+	cell := &callCell{id: t.id}
+	cancel := context.CancelFunc(nil)
+	if old != nil && rq.Reuse == "req" {
+		// the very same request once more
+		req, cell, cancel = old.req, old.cell, old.cancel
+		cell.id = t.id
+	} else {
+		ctx := context.WithValue(context.Background(), callKey{}, cell)
+		for _, l := range rq.Outer {
+			switch l.Kind {
+			case "info":
+				ctx = ociauth.ContextWithRequestInfo(ctx, ociauth.RequestInfo{RequiredScope: l.Scope.Scope()})
+			case "scope":
+				ctx = ociauth.ContextWithScope(ctx, l.Scope.Scope())
+			}
+		}
+		if rq.Required.Kind != "zero" || rq.ReqExplicit {
+			ctx = ociauth.ContextWithRequestInfo(ctx, ociauth.RequestInfo{RequiredScope: rq.Required.Scope()})
+		}
+		if rq.Want.Kind != "zero" || rq.WantExplicit {
+			ctx = ociauth.ContextWithScope(ctx, rq.Want.Scope())
+		}
+		switch rq.Cancel {
+		case "deadline":
+			ctx, cancel = context.WithDeadline(ctx, time.Now().Add(-time.Second))
+		case "pre":
+			ctx, cancel = context.WithCancel(ctx)
+			cancel()
+		default:
+			ctx, cancel = context.WithCancel(ctx)
+		}
+		req, _ = http.NewRequestWithContext(ctx, "GET", "https://"+rq.Host+"/v2/x", nil)
+		if old != nil {
+			req.Header = old.req.Header // one header map, several requests
+		} else if rq.Auth != "" {
+			req.Header.Set("Authorization", rq.Auth)
+		}
+		switch rq.HostHdr {
+		case "":
+		case "-":
+			req.Host = ""
+		default:
+			req.Host = rq.HostHdr
+		}
 	}
-	req, _ := http.NewRequestWithContext(ctx, "GET", "https://"+rq.Host+"/v2/x", nil)
 	req.Header.Set("X-Verif-Call", strconv.Itoa(t.id))
 	req.Header.Set("X-Verif-Need", rq.Need)
 	req.Header.Set("X-Verif-Chal", rq.Chal)
-	if rq.Auth != "" {
-		req.Header.Set("Authorization", rq.Auth)
-	}
-	switch rq.HostHdr {
-	case "":
-	case "-":
-		req.Host = ""
-	default:
-		req.Host = rq.HostHdr
-	}
+	w.mu.Lock()
+	t.req, t.rq, t.cell, t.cancel = req, rq, cell, cancel
+	w.mu.Unlock()
+	return req, req.Context()
+}
+
+func (w *world) call(tr http.RoundTripper, t *thr, rq *Req) {
+	req, ctx := w.buildRequest(t, rq)
 	bodyFor(w, t.id, rq.Body, req)
 	beforeHdr := req.Header.Clone()
 	beforeHost := req.Host
@@ -772,6 +1066,7 @@ func (w *world) call(tr http.RoundTripper, t *thr, rq *Req) {
 	w.mu.Lock()
 	t.done = true
 	t.parked = false
+	t.inChain, t.redirN = false, 0
 	w.phaseEnd(t)
 	w.mu.Unlock()
 	t.sig <- struct{}{}
@@ -805,7 +1100,7 @@ func (w *world) wait(t *thr) {
 // Run plays the case against a fresh transport.
 func Run(in *CaseIn) *Observed {
 	w := &world{in: in, t0: time.Now(), lifeN: map[string]int{}, issued: map[string]*issue{},
-		refresh: map[string]bool{}, threads: map[int]*thr{}, realms: map[string]bool{}}
+		refresh: map[string]bool{}, threads: map[int]*thr{}, realms: map[string]bool{}, alias: map[string]*RealmCfg{}, inFake: map[int]bool{}}
 	w.cond = sync.NewCond(&w.mu)
 	for _, h := range in.Hosts {
 		if h.Refresh != "" {
@@ -842,6 +1137,18 @@ func Run(in *CaseIn) *Observed {
 		switch st.Op {
 		case "sleep":
 			time.Sleep(time.Duration(st.Ms) * time.Millisecond)
+		case "cancel":
+			// the caller gives up on call ID (wherever that call is: parked at the registry, waiting
+			// at a slow token server, queueing): from now on the network fails its requests
+			w.mu.Lock()
+			var cancel context.CancelFunc
+			if t := w.threads[st.ID]; t != nil && !t.done {
+				cancel = t.cancel
+			}
+			w.mu.Unlock()
+			if cancel != nil {
+				cancel()
+			}
 		case "start":
 			if w.threads[st.ID] != nil || st.Req == nil {
 				continue
@@ -1029,7 +1336,7 @@ func ambiguous(in *CaseIn, evs []Ev) bool {
 					return true
 				}
 			}
-		case "send":
+		case "send", "hop":
 			if e.Msg.Kind != "reg" && e.Resp != nil && !e.Resp.Fail && e.Resp.Status == 200 && e.Resp.Body == "json" &&
 				(e.Resp.Token != "" || e.Resp.Access != "") {
 				life := int64(e.Resp.ExpiresIn)
